@@ -78,6 +78,8 @@ def conformance(pid, tier, seed):
             kw = dict(keys=80 if thorough else 4, blocks=10 if thorough else 3, lens="all")
         elif fam == "RC2":
             kw = dict(keys=16 if thorough else 2, blocks=5 if thorough else 2, lens="all")
+        elif fam == "RC5":
+            kw = dict(keys=120 if thorough else 10, blocks=10 if thorough else 4, lens="all")
         elif fam == "AES":
             kw = dict(keys=200 if thorough else 6, blocks=12 if thorough else 3, lens="all")
         else:
